@@ -183,6 +183,43 @@ def normVal (p : String) (start : Nat) (val : List String) : List String :=
     | [] => []
   else val
 
+/-! #### the text of a name / operator (oracle side; independent of `Prim.nameDec`, which mirrors the
+     `windows(3)` loop): every `#` followed by two hex digits stands for the coded byte, read left to
+     right; code 0 is not allowed -/
+
+def hexDigitVal (b : UInt8) : Option Nat :=
+  let n := b.toNat
+  if 48 ≤ n && n ≤ 57 then some (n - 48)
+  else if 97 ≤ n && n ≤ 102 then some (n - 87)
+  else if 65 ≤ n && n ≤ 70 then some (n - 55)
+  else none
+
+def codeDecode : Nat → Bytes → Option Bytes
+  | 0, _ => none
+  | _ + 1, [] => some []
+  | f + 1, a :: t =>
+    match a == 35, t with
+    | true, b :: c :: t' =>
+      match hexDigitVal b, hexDigitVal c with
+      | some h, some l => if 16 * h + l == 0 then none else (codeDecode f t').map (UInt8.ofNat (16 * h + l) :: ·)
+      | _, _ => (codeDecode f t).map (a :: ·)
+    | _, _ => (codeDecode f t).map (a :: ·)
+
+/-- the value clause for names and operators: the reported value is the decoding of the reported span
+    (`/` excluded for names).  `none` = clause not applicable to this parser. -/
+def valueOfSpan (p : String) (s : Bytes) (st en : Nat) (val : List String) : Option Bool :=
+  let p := if p.startsWith "@" then (p.drop 1).toString else p
+  let text := (s.drop st).take (en - st)
+  let body : Option Bytes :=
+    if p == "op" then some text
+    else if p == "name" then (match text with | 47 :: t => some t | _ => none)
+    else none
+  if p == "op" || p == "name" then
+    match body with
+    | none => some false
+    | some b => some ((codeDecode (b.length + 1) b).map hexOfBytes == some (String.join val) && (p == "name" || !b.isEmpty))
+  else none
+
 /-- The oracle: the clauses of C15 applied to the implementation's output. -/
 def judge (case impl : String) : String :=
   match words case with
@@ -200,6 +237,7 @@ def judge (case impl : String) : String :=
             else if !(st ≤ en && en ≤ s.length) then s!"bad span-range {st} {en} size={s.length}"
             else if tokenLevel p && st != i then s!"bad start-ne-cursor start={st} pos={i}"
             else if !(i ≤ st) then s!"bad start-before-cursor"
+            else if valueOfSpan p s st en val == some false then "bad value-not-text-of-span"
             else if !reparseApplies p then "ok"
             else
               match rest with
@@ -274,7 +312,161 @@ def emitAll (emit : String → IO Unit) (s : Bytes) (ps : List String) : IO Unit
     for i in List.range (s.length + 1) do
       emit s!"{p} {hexOfBytes s} {i}"
 
+/-! ### number tokens at the overflow exits of `IntegerP` / `RealP`
+
+  Both parsers read the whole digit run first and only then accumulate it with `checked_mul(num, 10)` /
+  `checked_add(num, digit)` (RealP: integer part, then for every fraction digit numerator MUL, numerator ADD,
+  denominator MUL) - seven "numerical overflow" exits in all, each with the cursor far away from where the
+  parser started.  They are reached only by tokens of 19+ (i64) / 39+ (i128) digits, which no enumeration of
+  small buffers contains.  The family is built from the limits themselves, not from literal inputs:
+  magnitudes around a limit `L` (last digit decides the ADD, the digit before the MUL), every split of
+  the digit string into integer and fraction part, fractions of 36..40 digits after a small numerator
+  (denominator exit), signs, leading zeros, followers, cursor inside the token. -/
+
+def digitsOf (n : Nat) : Bytes := (toString n).toUTF8.toList
+
+/-- magnitudes around the limit `L` of a checked accumulation -/
+def edgeMags (L : Nat) : List Nat :=
+  let q := L / 10
+  let nd := (digitsOf L).length
+  [L - 1, L, L + 1, L + 2, L + 10, 2 * L + 1, 2 * L + 2, L * 10, L * 10 + 7, L * 100 + 1] ++
+  (List.range 10).map (q * 10 + ·) ++                   -- same prefix as L: the last digit decides (checked_add)
+  ([0, 5, 9] : List Nat).map ((q + 1) * 10 + ·) ++       -- as long as L: checked_mul overflows at the last digit
+  ([0, 1, 2] : List Nat).map (fun k => 10 ^ (nd - 1 + k)) ++
+  [q, q + 1, L / 100]                                    -- one / two digits shorter: fits, room for fraction digits
+
+def splitPoints (n : Nat) (full : Bool) : List Nat :=
+  if full then List.range (n + 1) else ([0, 1, 2, n / 2, n - 2, n - 1, n].filter (· ≤ n)).eraseDups
+
+/-- unsigned number tokens (digit runs with at most one point) -/
+def numTokens (full : Bool) : List Bytes := Id.run do
+  let mut out : List Bytes := []
+  let mut k := 0
+  for L in [2 ^ 63 - 1, 2 ^ 127 - 1] do
+    for m in edgeMags L do
+      k := k + 1
+      for z in [k % 3] do
+        let t := List.replicate z 48 ++ digitsOf m
+        out := t :: out
+        for p in splitPoints t.length full do
+          out := (t.take p ++ [46] ++ t.drop p) :: out
+  -- the unsigned limits (a parser accumulating in u64 / u128 would stop here)
+  for L in [2 ^ 64 - 1, 2 ^ 128 - 1] do
+    for m in [L - 1, L, L + 1, L * 10] do
+      let t := digitsOf m
+      out := t :: (t.take 1 ++ [46] ++ t.drop 1) :: (t ++ [46]) :: out
+  -- denominator: 10^38 fits an i128, 10^39 does not, whatever the numerator
+  for ds in [[], [48], [55], [49, 55]] do
+    for z in [17, 18, 19, 36, 37, 38, 39, 40] do
+      for tail in [[], [49], [57, 57]] do
+        out := (ds ++ [46] ++ List.replicate z 48 ++ tail) :: out
+  return out.reverse
+
+def numParsers (full : Bool) : List String :=
+  if full then ["int", "real", "obj:3", "@int", "@real", "@obj:3", "cmb:seqIntWsn1", "cmb:notObj", "cmb:starObj",
+                "cmb:lkAltObjAny", "cmb:seqAObj"]
+  else ["int", "real", "obj:3", "@int", "@real", "cmb:seqIntWsn1"]
+
+def numFollowers : List Bytes := [[], [32], [120], [46], [47], [101, 53], [45], [13, 10]]
+def numLeads : List Bytes := [[], [32], [40], [57], [37, 10]]
+
+/-- one number token under every parser of `numParsers`: after a lead, before a follower, cursor at the
+    token, one byte into it (sign or first digit skipped) and - thorough - two and half a token into it -/
+def emitNum (emit : String → IO Unit) (full : Bool) (k : Nat) (tok : Bytes) : IO Unit := do
+  let signs : List Bytes := [[], [43], [45]]
+  for sg in signs do
+    let leads := [numLeads[k % numLeads.length]?.getD []] ++ (if full then [numLeads[(k / 5 + 1) % numLeads.length]?.getD []] else [])
+    let fols := [numFollowers[k % numFollowers.length]?.getD [], numFollowers[(k / 3 + 3) % numFollowers.length]?.getD []] ++
+                (if full then [numFollowers[(k / 7 + 5) % numFollowers.length]?.getD []] else [])
+    for lead in leads.eraseDups do
+      for fol in fols.eraseDups do
+        let s := lead ++ sg ++ tok ++ fol
+        let inside := if full then [lead.length + 2, lead.length + tok.length / 2] else []
+        for i in ([lead.length, lead.length + 1] ++ inside).eraseDups do
+          if i ≤ s.length then
+            for p in numParsers full do
+              emit s!"{p} {hexOfBytes s} {i}"
+
+/-- a random number token: lengths of the two digit runs drawn around the 19 / 39 digit boundaries -/
+def rndNumTok (r : Rng) : Bytes × Rng :=
+  let digits (len : Nat) (r : Rng) : Bytes × Rng :=
+    (List.range len).foldl (fun (acc : Bytes × Rng) j =>
+      let (d, r') := if j + 1 == len then acc.2.pick ([49, 49, 49, 50, 57, 48] : List UInt8)   -- leading digit (built back to front)
+                     else let (v, r'') := acc.2.nat 10; (UInt8.ofNat (48 + v), r'')
+      (d :: acc.1, r')) ([], r)
+  let (il, r) := r.pick ([0, 1, 2, 18, 19, 20, 37, 38, 39, 40, 41] : List Nat)
+  let (fl, r) := r.pick ([none, some 0, some 1, some 2, some 19, some 37, some 38, some 39, some 40] : List (Option Nat))
+  let (ds, r) := digits il r
+  match fl with
+  | none => (ds, r)
+  | some fl => let (fs, r) := digits fl r; (ds ++ [46] ++ fs, r)
+
+/-! ### `#xx` codes in operator and name tokens
+
+  `OperatorP` and `NameP` normalise `#` + two hex digits with a hand-written loop over `windows(3)` that
+  skips two windows after a code and treats 0, 1 and 2 trailing bytes separately; tokens shorter than three
+  bytes bypass it.  The family puts codes at every position relative to the token end: all sequences of
+  up to 3 (thorough: 4) pieces (plain bytes incl. a lone `#`, a hex digit and a non-hex letter, a raw lead
+  byte of a 2-byte UTF-8 character; codes in both hex cases, `#00`, a code decoding to `#`, codes decoding
+  to non-UTF-8 / to a UTF-8 continuation byte), one code after 0..5 and before 0..5 plain bytes, two codes
+  separated by 0..3 plain bytes. -/
+
+def hexPieces : List Bytes :=
+  [[97], [103], [52], [49], [35], [0xC3],
+   [35, 52, 49], [35, 52, 65], [35, 52, 97], [35, 48, 48], [35, 101, 57], [35, 97, 57], [35, 50, 51]]
+
+def seqsOver (ps : List Bytes) : Nat → List Bytes
+  | 0 => [[]]
+  | n + 1 => (seqsOver ps n).flatMap fun t => ps.map (· ++ t)
+
+def plainRun (k : Nat) : Bytes := ([98, 120, 100, 121, 102, 122, 99, 119, 101, 118] : Bytes).take k
+
+def codeTokens (full : Bool) : List Bytes :=
+  let codes : List Bytes := [[35, 52, 49], [35, 52, 97], [35, 48, 48], [35, 101, 57], [35, 55, 69]]
+  let lens := if full then [1, 2, 3, 4] else [1, 2, 3]
+  lens.flatMap (seqsOver hexPieces) ++
+  (codes.flatMap fun c => (List.range 6).flatMap fun i => (List.range 6).map fun j => plainRun i ++ c ++ plainRun j) ++
+  (([[35, 52, 49], [35, 67, 51], [35, 97, 57]] : List Bytes).flatMap fun c1 =>
+    ([[35, 52, 49], [35, 97, 57], [35, 48, 48]] : List Bytes).flatMap fun c2 =>
+      (List.range 4).flatMap fun i => (List.range 4).flatMap fun j => (List.range 4).map fun l =>
+        plainRun i ++ c1 ++ (plainRun (i + j)).drop i ++ c2 ++ (plainRun (i + j + l)).drop (i + j))
+
+def codeTerms : List Bytes := [[], [32], [47], [40], [13, 10], [62]]
+
+def emitCode (emit : String → IO Unit) (full : Bool) (k : Nat) (tok : Bytes) : IO Unit := do
+  let terms := [codeTerms[k % codeTerms.length]?.getD [], codeTerms[(k / 6 + 1) % codeTerms.length]?.getD []] ++
+               (if full then [codeTerms[(k / 36 + 2) % codeTerms.length]?.getD []] else [])
+  for t in terms.eraseDups do
+    let s := tok ++ t
+    emit s!"op {hexOfBytes s} 0"
+    emit s!"@op {hexOfBytes s} 0"
+    emit s!"op {hexOfBytes ([32] ++ s)} 1"
+    emit s!"name {hexOfBytes ([47] ++ s)} 0"
+    emit s!"obj:3 {hexOfBytes ([47] ++ s)} 0"
+    if full then
+      emit s!"@name {hexOfBytes ([47] ++ s)} 0"
+      emit s!"name {hexOfBytes ([91, 47] ++ s)} 1"
+      -- cursor inside the token: a code cut in two
+      if 1 ≤ s.length then emit s!"op {hexOfBytes s} 1"
+      if 2 ≤ s.length then emit s!"op {hexOfBytes s} 2"
+
 def gen (seed n : Nat) (tier : String) (emit : String → IO Unit) : IO Unit := do
+  let full := tier == "thorough"
+  -- number tokens at the overflow exits; `#xx` codes at every distance from the token end
+  let mut idx := 0
+  for tok in numTokens full do
+    idx := idx + 1
+    emitNum emit full idx tok
+  let mut rn := Rng.mk' (seed + 15)
+  for _ in List.range (if full then 4000 else 250) do
+    let (tok, r') := rndNumTok rn
+    rn := r'
+    idx := idx + 1
+    emitNum emit false idx tok
+  idx := 0
+  for tok in codeTokens full do
+    idx := idx + 1
+    emitCode emit full idx tok
   -- exhaustive small buffers
   let maxLen := if tier == "thorough" then 3 else 2
   for len in List.range (maxLen + 1) do
